@@ -203,7 +203,8 @@ Fixpoint opts_eqb (a b : list (option Z)) : bool :=
   end.
 Definition mon_threshold (p : block_pre) : bool := opts_eqb (bp_thr p) (bp_gthr p).
 Definition mon_query (qthr gthr : option Z) (idx : list (list Z * list Z)) : bool :=
-  opt_eqb qthr gthr && forallb (fun '(q, g) => zlist_eqb q g) idx.
+  (* the assignment is a set: the order of the answer is not part of the rule *)
+  opt_eqb qthr gthr && forallb (fun '(q, g) => same_set q g) idx.
 
 Definition c09_check (c : c09_case) : list Z :=
   match c with
